@@ -9,7 +9,7 @@ python3 - "$src" "$dst" "$caught" "$note" <<'PY'
 import json,sys,re
 src,dst,caught,note=sys.argv[1:5]
 m=json.load(open(src+'/meta.json'))
-m['demo_cmd']=re.sub(r'/tmp/wt[23456]?-C[0-9]+','/repo',m['demo_cmd'])
+m['demo_cmd']=re.sub(r'/tmp/wt[2-9]?-C[0-9]+','/repo',m['demo_cmd'])
 m['confirmed_by_me']=["git -C /repo apply patch.diff; go test -vet=off -count=1 ./... -> all packages ok","demo with patch -> FAIL; demo without patch -> PASS (tools/seedeval.sh)"]
 m['caught_by']=caught.split()
 m['note']=note
